@@ -14,10 +14,11 @@ RULE = ('exhaustive: every string over {a,space,",\',\\,newline} up to length 4 
         'not ending in a backslash, in both quote styles, alone / followed by 2 more strings on the same '
         'line / through BASETYPE and an abstract Value rule; plus random unicode strings, ints (up to 80 '
         'digits, +/-), floats in repr/%e/%E/"1."/".5" forms through FLOAT, STRICTFLOAT, NUMBER, BASETYPE, '
-        'all BOOL spellings. distinct = distinct (type-path, literal text); non-trivial = literal contains '
+        'all BOOL spellings; every case under one of 6 metamodel configurations (default, use_regexp_group, ignore_case, autokwd, memoization, use_regexp_group without auto-init) in rotation. distinct = distinct (type-path, literal text); non-trivial = literal contains '
         'a quote, backslash, newline, sign, exponent or >15 digits')
 REQUIRED = {'string_roundtrips': 500, 'int_roundtrips': 50, 'float_roundtrips': 50,
-            'bool_roundtrips': 6, 'multi_string_lines': 100}
+            'bool_roundtrips': 6, 'multi_string_lines': 100,
+            'config_0': 100, 'config_1': 100, 'config_2': 100, 'config_3': 100, 'config_4': 100, 'config_5': 100}
 ASSUMPTIONS = ['Python int()/float()/repr round-trip is the reference for numeric text',
                'string encoding used by the oracle: only the delimiting quote is escaped (as the property states)']
 
@@ -29,15 +30,19 @@ Value: STRING | NUMBER | BOOL | Obj;
 Obj: '{' x=INT '}';
 '''
 
-_mm = None
+# metamodel configurations under which every conversion must come out the same
+CONFIGS = [{}, {'use_regexp_group': True}, {'ignore_case': True}, {'autokwd': True}, {'memoization': True},
+           {'use_regexp_group': True, 'auto_init_attributes': False}]
+CONFIG = [0]
+_mm = {}
 
 
 def mm():
-    global _mm
-    if _mm is None:
+    k = CONFIG[0]
+    if k not in _mm:
         from textx import metamodel_from_str
-        _mm = metamodel_from_str(GRAMMAR)
-    return _mm
+        _mm[k] = metamodel_from_str(GRAMMAR, **CONFIGS[k])
+    return _mm[k]
 
 
 def enc(s, q):
@@ -244,14 +249,19 @@ def run(ctx):
     for idx in ctx.indices(len(strings), 'exhaustive_strings', exhaustive=True):
         s = strings[idx]
         for vi, var in enumerate(VARIANTS):
-            one_string(ctx, s, var, {'phase': 'exh', 's': s, 'variant': vi})
+            CONFIG[0] = (idx + vi) % len(CONFIGS)
+            ctx.count('config_%d' % CONFIG[0])
+            one_string(ctx, s, var, {'phase': 'exh', 's': s, 'variant': vi, 'config': CONFIG[0]})
     ctx.deadline = ctx.t0 + total
     n = 4000 if ctx.tier == 'quick' else 200000
     for i in ctx.indices(n, 'random'):
+        CONFIG[0] = (i // 4) % len(CONFIGS)
+        ctx.count('config_%d' % CONFIG[0])
         run_random(ctx, i)
 
 
 def replay(ctx, rep):
+    CONFIG[0] = rep.get('config', (rep.get('i', 0) // 4) % len(CONFIGS))
     if rep.get('phase') == 'exh':
         one_string(ctx, rep['s'], VARIANTS[rep['variant']], rep)
     else:
